@@ -18,7 +18,7 @@ RULE = (
     "file order, value x factor (rel 1e-12), units attribute, constants once as group attrs with "
     "the enum label, header attrs present iff the field is non-blank; missing and unexpected "
     "leaves are discrepancies. Non-trivial: >= 2 lines."
-    " One case in four is judged on the tree returned by an open that also writes the index cache. Stage 'in-place-pairs': two products with the same file names at the same root, one after the other, both judged. A fifth of the cases inject a transient I/O error (the 1st..4th read of an image file fails once with OSError during the open): the open may fail, a returned tree is complete. Three cases in five run with the process time zone set away from UTC."
+    " One case in four is judged on the tree returned by an open that also writes the index cache. Stage 'in-place-pairs': two products with the same file names at the same root, one after the other, both judged. A fifth of the cases inject a transient I/O error (the 1st..4th read of an image file fails once with OSError during the open): the open may fail, a returned tree is complete. Three cases in five run with the process time zone set away from UTC. Half of the two-image products list their images in non-alphabetical order of polarisation."
 )
 ASSUMPTIONS = [
     "layout tables for the image descriptor and both line records (frozen)",
@@ -48,6 +48,9 @@ def cases(draw):
             # line numbers are labels, not positions: they may start again or be unset (0)
             im["line_numbers"] = draw(st.sampled_from(["restart", "zeros"]))
         images.append(im)
+    if len(images) == 2 and draw(st.booleans()):
+        # the summary numbers the image files in another order than the alphabetical one
+        images[0]["pol"], images[1]["pol"] = draw(st.sampled_from([("HV", "HH"), ("VV", "VH"), ("VH", "HV")]))
     return {
         "level": level,
         "images": images,
@@ -111,12 +114,23 @@ def run_case_in_zone(case):
                 d.setdefault("context", {})["during"] = "an open in which a read of the image " + ("failed with OSError" if consumed else "was to fail (no such read happened)")
                 out.append(d)
         return out
-    with harness.Materialised(files, "memory") as prod:
+    # a third of the plain cases are served by vtrace:// with "reads handed to helper threads do
+    # not arrive in submission order" switched on (no effect on a reader that reads in one thread)
+    delayed = not case.get("create_cache") and harness.PAIR_INDEX is None and case["vseed"] % 3 == 0
+    with harness.Materialised(files, "vtrace" if delayed else "memory") as prod:
         opts = {"use_cache": False, "records_per_chunk": case["rpc"]}
         if case.get("create_cache"):
             opts["create_cache"] = True
         try:
-            tree, err = harness.guard(harness.open_tree, prod.url, **opts)
+            if delayed:
+                from vf import vtrace
+
+                vtrace.STORE.delay_foreign_reads = 0.03
+            try:
+                tree, err = harness.guard(harness.open_tree, prod.url, **opts)
+            finally:
+                if delayed:
+                    vtrace.STORE.delay_foreign_reads = 0
             if err is not None:
                 return [harness.disc("exception", "open_alos2", "a tree", harness.exc_text(err))]
             flat, err = harness.guard(harness.flatten, tree)
